@@ -1,8 +1,8 @@
 (* C08 on the tables of the compiled crate (debug profile: overflow checks and debug assertions on;
    a panic caught by catch_unwind is the table entry Panic).  Self-contained, like Props/C08.v. *)
 From Coq Require Import NArith Bool List String.
-From PK Require Import Base.Outcome Base.Finite Base.Machine Gen.Types Impl Spec.Frame Spec.Event
-  Ext.Ps2 ExtI.Ps2 Ext.Set1 Ext.Set2 ExtI.Scan Ext.Lay ExtI.Lay Ext.Event ExtI.Ev Check.Scan Check.Ps2M Check.C07 Check.Lay Check.Ev Check.C08.
+From PK Require Import Base.Outcome Base.Finite Base.Machine Gen.Types Impl Spec.Frame Spec.Mods
+  Ext.Ps2 ExtI.Ps2 Ext.Set1 Ext.Set2 ExtI.Scan Ext.Lay ExtI.Lay Ext.Event ExtI.Ev Check.Scan Check.Ps2M Check.C07 Check.Lay Check.EvImpl Check.C08.
 Import ListNotations.
 Local Open Scope N_scope.
 
